@@ -25,15 +25,22 @@ const (
 var (
 	Offset time.Duration
 	Jumps  bool
+	Sleeps int
 )
 
-func Reset()                { Offset = 0 }
+func Reset()                { Offset, Sleeps = 0, 0 }
 func Now() Time             { return time.Now().Add(Offset) }
 func Since(t Time) Duration { return Now().Sub(t) }
 func Until(t Time) Duration { return t.Sub(Now()) }
 func Unix(s, ns int64) Time { return time.Unix(s, ns) }
 func Sleep(d Duration) {
 	Offset += d
+	Sleeps++
+	if !vs.S.OthersEnabled() {
+		// everybody else is blocked or asleep: any amount of time may pass before the next thing happens, so a time-out the sleeper is
+		// waiting for is reached now rather than after thousands of polls (otherwise a long wait would look like a livelock)
+		Offset += time.Hour
+	}
 	if Jumps && vs.S.Choose(vs.KEnv, 2) == 1 {
 		vs.S.Note("clock: 24h pass during this sleep")
 		Offset += 24 * time.Hour
